@@ -138,6 +138,16 @@ def not_a_message(ctx: Ctx, chk) -> None:
     fr = Frame(ctx.I.make_callee(send_raw, send_raw.cls), None)
     send = ctx.inl(send_raw)  # the validation step may be extracted into a private helper
     dumps = [n for n in ctx.own_nodes(send) if isinstance(n, ast.Call) and isinstance(n.func, ast.Attribute) and n.func.attr == "dump"]
+    if not dumps and send_raw.cls is not None:
+        # `self._dump(message)` with `self._dump = self._schema.dump` stored once in __init__
+        init_ = send_raw.cls.find_method("__init__")
+        alias_ = {}
+        for n_ in ctx.own_nodes(init_) if init_ is not None else []:
+            if isinstance(n_, (ast.Assign, ast.AnnAssign)) and isinstance(n_.value, ast.Attribute) and n_.value.attr == "dump":
+                for t_ in n_.targets if isinstance(n_, ast.Assign) else [n_.target]:
+                    if isinstance(t_, ast.Attribute) and norm(t_.value) == "self":
+                        alias_.setdefault(t_.attr, []).append(n_)
+        dumps = [n for n in ctx.own_nodes(send) if isinstance(n, ast.Call) and isinstance(n.func, ast.Attribute) and norm(n.func.value) == "self" and len(alias_.get(n.func.attr, [])) == 1]
     if len(dumps) != 1:
         raise AnalysisError(f"NOT-A-MESSAGE: expected one schema dump in Gateway.send, found {len(dumps)}")
     d = dumps[0]
